@@ -159,8 +159,10 @@ func (mb *mbox) writeIndex() error {
 		if err := mb.createDir(); err != nil {
 			return err
 		}
-		// Open index for writing
-		file, err := os.Create(mb.indexPath)
+		// Write the new index to a temporary file, then atomically replace the old index, so
+		// that an interrupted write never leaves a truncated index behind.
+		tmpPath := mb.indexPath + ".tmp"
+		file, err := os.Create(tmpPath)
 		if err != nil {
 			return err
 		}
@@ -169,21 +171,29 @@ func (mb *mbox) writeIndex() error {
 		enc := gob.NewEncoder(writer)
 		if err = enc.Encode(mb.name); err != nil {
 			_ = file.Close()
+			_ = os.Remove(tmpPath)
 			return err
 		}
 		for _, m := range mb.messages {
 			if err = enc.Encode(m); err != nil {
 				_ = file.Close()
+				_ = os.Remove(tmpPath)
 				return err
 			}
 		}
 		if err := writer.Flush(); err != nil {
 			_ = file.Close()
+			_ = os.Remove(tmpPath)
 			return err
 		}
 		if err := file.Close(); err != nil {
-			log.Error().Str("module", "storage").Str("path", mb.indexPath).Err(err).
+			log.Error().Str("module", "storage").Str("path", tmpPath).Err(err).
 				Msg("Failed to close")
+			_ = os.Remove(tmpPath)
+			return err
+		}
+		if err := os.Rename(tmpPath, mb.indexPath); err != nil {
+			_ = os.Remove(tmpPath)
 			return err
 		}
 	} else {
@@ -208,7 +218,11 @@ func (mb *mbox) createDir() error {
 
 // removeDir removes the mailbox, plus empty higher level directories
 func (mb *mbox) removeDir() error {
-	// remove mailbox dir, including index file
+	// remove the index first, so the mailbox reads as empty if we are interrupted
+	if err := os.Remove(mb.indexPath); err != nil && !os.IsNotExist(err) {
+		return err
+	}
+	// remove mailbox dir, including message files
 	if err := os.RemoveAll(mb.path); err != nil {
 		return err
 	}
